@@ -320,6 +320,10 @@ func runC04(c *core.Ctx) {
 		})
 	}
 
+	// ---- R6 (shared with C08-R7): the exact-length body reader behind the lazy decoders
+	c.Rule("R6", "exact-length reader counts bytes and maps early EOF correctly (shared with C08-R7)", 1)
+	importObligations(c, runC08, "R6", func(o *core.Obligation) bool { return o.Rule == "R7" })
+
 	// ---- R5 delimiter match
 	for _, fc := range codecs {
 		if fc.read == nil {
